@@ -7,7 +7,12 @@
   3. correspond harness/h_cpp.cpp (real classes; in-harness direct C calls under the documented
                 key and nonce) against the extracted model (ocaml/drv_cpp.ml); a second harness
                 built with -DASCON_NO_STL (src/cplusplus/*.cpp compiled here with the same
-                definition) replays the same streams and must print the same lines
+                definition) replays the same streams and must print the same lines; a third
+                harness built with -DARDUINO=10819 against the functional stub String of
+                harness/arduino_stub (configuration `default-arduino`) replays them once more,
+                EXECUTING the String overloads (absorb / update (const String &), bytes_to_hex
+                returning String, bytes_from_hex(const String &)) where the default build runs the
+                std::string / const char * forms: again every line must be identical
 """
 import os, sys, re, json, time, random, shutil, shlex
 from concurrent.futures import ThreadPoolExecutor
@@ -28,6 +33,13 @@ COMPILERS = [("%s -std=%s" % (cc, std), [cc, "-std=" + std, "-fsyntax-only"]) fo
 # compile passes: variant of gen_cpp_members -> signature prefix of a violation
 PASSES = [("stl", "nocompile:"), ("nostl", "nocompile-nostl:"), ("arduino", "nocompile-arduino:")]
 NOSTL_HARNESS_SRCS = ["main.cpp", "h_cpp.cpp", "h_trng.cpp"]
+# the run-time variants of the headers: definitions, what the build is called in messages
+RT_VARIANTS = {
+    "nostl": {"defs": ["-DASCON_NO_STL"], "inc": [], "flag": "-DASCON_NO_STL", "long": "built with -DASCON_NO_STL (ascon::byte_array = the library's own class)"},
+    "arduino": {"defs": ["-DARDUINO=10819"], "inc": ["-I" + gcm.ARDUINO_STUB], "flag": "-DARDUINO=10819",
+                "long": "built with -DARDUINO=10819 against the stub String of harness/arduino_stub (String overloads executed; utility.h defines "
+                        "ASCON_NO_STL itself, so ascon::byte_array = the library's own class)"},
+}
 
 
 # ---------------------------------------------------------------------------
@@ -204,8 +216,8 @@ def judge_pass(res, variant, prefix, d, tus, compilers, results):
              "compilations_failed": nfail, "distinct_failure_locations": sorted(failures), "crosscheck": cross,
              "template_lengths": gcm.XOF_LENGTHS}
     if variant == "arduino":
-        stats["stub"] = ("STUB: <Arduino.h>/<WString.h> are the minimal stand-ins of harness/arduino_stub (String with c_str()/length() and the real "
-                         "class's signatures), host compilers; this is not a build with the Arduino core or an AVR/ARM cross compiler")
+        stats["stub"] = ("STUB: <Arduino.h>/<WString.h> are the stand-ins of harness/arduino_stub (a functional String with c_str()/length()/concat/"
+                         "operators and the real class's signatures), host compilers; this is not a build with the Arduino core or an AVR/ARM cross compiler")
     return stats, xofa_ok
 
 
@@ -357,6 +369,19 @@ def gen_xof(rng, tier):
                 if c in ("F", "FB"):
                     ops.append("R")        # "the application must call reset() to perform another hashing process"
             out.append(("HSHC %s %s" % (alg, " ".join(ops)), "HSHX %s %s" % (alg, " ".join(ops))))
+    # directed: the string-object and C-string overloads of every class on every run (std::string in the default build, String in the
+    # ARDUINO build): empty, one character, around the 8-byte rate, with a NUL inside the object, a text that ends at its first NUL
+    strs = [b"", b"a", b"1234567", b"12345678", b"123456789", b"ab\x00cd", b"\x00", rb(rng, 40)]
+    texts = [b"Hello, World!", b"ab\x00cd", b"x", bytes(rng.randrange(1, 256) for _ in range(17))]
+    for alg in ("xof", "xofa"):
+        for L in (0, 32):
+            for k, d in enumerate(strs):
+                ops = ["AS:%s" % hx(d), "AC:%s" % hx(texts[k % len(texts)]), "Q:%d" % (9 if L == 0 else 32), "AS:%s" % hx(strs[(k + 3) % len(strs)])]
+                out.append(("XOFC %s %d D %s" % (alg, L, " ".join(ops)), "XOFX %s %d D %s" % (alg, L, " ".join(ops))))
+    for alg in ("hash", "hasha"):
+        for k, d in enumerate(strs):
+            ops = ["US:%s" % hx(d), "UC:%s" % hx(texts[k % len(texts)]), "US:%s" % hx(strs[(k + 3) % len(strs)]), "F", "R", "UC:%s" % hx(texts[(k + 1) % len(texts)])]
+            out.append(("HSHC %s %s" % (alg, " ".join(ops)), "HSHX %s %s" % (alg, " ".join(ops))))
     return out
 
 
@@ -422,17 +447,20 @@ def shrink_cpx(harness, line, want):
     return " ".join(t)
 
 
-def build_nostl(res, got, san=False, defs=()):
-    """The second harness: main.cpp + h_cpp.cpp + h_trng.cpp and /repo's src/cplusplus/*.cpp (working tree), all compiled
-    with -DASCON_NO_STL, linked before libascon_static.a of the build `got` (whose own C++ members were compiled by CMake
-    without the definition and must stay out of the link).  -> (exe, name, info) or None"""
+def build_nostl(res, got, san=False, defs=(), variant="nostl"):
+    """The second / third harness: main.cpp + h_cpp.cpp + h_trng.cpp and /repo's src/cplusplus/*.cpp (working tree), all compiled
+    with -DASCON_NO_STL (variant "nostl") or with -DARDUINO=10819 and harness/arduino_stub on the include path (variant "arduino"),
+    linked before libascon_static.a of the build `got` (whose own C++ members were compiled by CMake without the definition and
+    must stay out of the link).  -> (exe, name, info) or None"""
     bdir, _, name = got
-    name += "-nostl"
-    d = os.path.join(bdir, "nostl")
+    V = RT_VARIANTS[variant]
+    vflag = V["flag"]
+    name += "-" + variant
+    d = os.path.join(bdir, variant)
     os.makedirs(d, exist_ok=True)
     t0 = time.time()
-    inc = ["-I" + os.path.join(common.REPO, "src"), "-I" + os.path.join(common.REPO, "src", "ascon"), "-I" + bdir]
-    fl = ["-std=c++11", "-DASCON_NO_STL", "-DHAVE_CONFIG_H", "-DASCON_SUITE_VERIF"] + (common.SAN_FLAGS.split() if san else ["-O1", "-g"])
+    inc = ["-I" + os.path.join(common.REPO, "src"), "-I" + os.path.join(common.REPO, "src", "ascon"), "-I" + bdir] + V["inc"]
+    fl = ["-std=c++11"] + V["defs"] + ["-DHAVE_CONFIG_H", "-DASCON_SUITE_VERIF"] + (common.SAN_FLAGS.split() if san else ["-O1", "-g"])
     cdir = os.path.join(common.REPO, "src", "cplusplus")
     libsrcs = sorted(f for f in os.listdir(cdir) if f.endswith(".cpp"))
     jobs = [("lib", f, ["g++"] + fl + ["-Wall", "-Wextra"] + inc + ["-c", os.path.join(cdir, f), "-o", os.path.join(d, "lib-" + f[:-4] + ".o")]) for f in libsrcs]
@@ -444,17 +472,17 @@ def build_nostl(res, got, san=False, defs=()):
     libwarn = sum(len(re.findall(r"\bwarning:", o)) for (j, (rc, o)) in zip(jobs, outs) if j[0] == "lib")
     for (kind, f, cmd), (rc, o) in zip(jobs, outs):
         if rc != 0:
-            sig = ("nocompile-nostl:src/cplusplus/" + f) if kind == "lib" else ("harness-build-failed@" + name)
-            res.violation(sig, ("/repo's src/cplusplus/%s does not compile with -DASCON_NO_STL:\n%s" if kind == "lib" else
-                                "the correspondence harness (%s) no longer compiles with -DASCON_NO_STL against /repo:\n%s") % (f, o[-1500:]),
+            sig = ("nocompile-%s:src/cplusplus/%s" % (variant, f)) if kind == "lib" else ("harness-build-failed@" + name)
+            res.violation(sig, ("/repo's src/cplusplus/%s does not compile with " + vflag + ":\n%s" if kind == "lib" else
+                                "the correspondence harness (%s) no longer compiles with " + vflag + " against /repo:\n%s") % (f, o[-1500:]),
                           {"config": name, "command": " ".join(cmd), "log_tail": o[-6000:]}, no_input=True)
             return None
-    exe = os.path.join(d, "verif_harness_nostl")
+    exe = os.path.join(d, "verif_harness_" + variant)
     objs = [os.path.join(d, "h-" + f[:-4] + ".o") for f in NOSTL_HARNESS_SRCS] + [os.path.join(d, "lib-" + f[:-4] + ".o") for f in libsrcs]
     cmd = ["g++"] + (common.SAN_FLAGS.split() if san else []) + objs + [os.path.join(bdir, "src", "libascon_static.a"), "-lpthread", "-o", exe]
     rc, o = common.sh(cmd, timeout=900)
     if rc != 0:
-        res.violation("harness-build-failed@" + name, "the ASCON_NO_STL harness does not link (duplicate or missing symbols between the NO_STL objects "
+        res.violation("harness-build-failed@" + name, "the " + vflag + " harness does not link (duplicate or missing symbols between the NO_STL objects "
                       "of src/cplusplus and libascon_static.a?):\n" + o[-1500:], {"config": name, "command": " ".join(cmd), "log_tail": o[-6000:]}, no_input=True)
         return None
     # where do the class members come from?  every ascon:: function must be defined exactly once, the byte_array overloads must be the
@@ -469,13 +497,18 @@ def build_nostl(res, got, san=False, defs=()):
         rc2, nm2 = common.sh(["nm", "-C", "--defined-only", os.path.join(d, "lib-" + f[:-4] + ".o")], timeout=300)
         libdefs |= set(l.split(" ", 2)[2] for l in nm2.split("\n") if len(l.split(" ", 2)) == 3 and l.split(" ", 2)[1] in "T")
     strong = [x for x in defs_ if x in libdefs]
-    info = {"library_sources_compiled_with_ASCON_NO_STL": libsrcs, "harness_sources": NOSTL_HARNESS_SRCS,
+    strs = [x for x in defs_ if "String const&" in x or "String const &" in x]
+    info = {"library_sources_compiled_with_" + vflag[2:].split("=")[0]: libsrcs, "harness_sources": NOSTL_HARNESS_SRCS, "definitions": V["defs"],
             "library_source_warnings": libwarn, "sanitizers": bool(san),
             "nm": {"ascon_functions_defined_in_exe": len(defs_), "of_them_defined_by_the_NO_STL_objects": len(strong),
                    "aead_byte_array_overloads_over_own_class": len(own), "byte_array_class_members": len(ba), "symbols_over_std_vector": len(vec)},
             "build_wall_s": round(time.time() - t0, 1)}
+    if variant == "arduino":
+        # the String overloads are inline members of the headers (usually inlined into the harness: the list may be empty)
+        info["nm"]["String_overloads_emitted_out_of_line"] = sorted(set(re.sub(r"<[^>]*>", "<L>", x.split("(")[0]) for x in strs))
+        info["stub"] = "harness/arduino_stub (functional stand-in for the Arduino core's String class; host compiler)"
     if len(own) != 4 or not ba or vec:
-        res.violation("harness-build-failed@" + name, "the ASCON_NO_STL harness is not made of NO_STL objects: %s" % info["nm"],
+        res.violation("harness-build-failed@" + name, "the " + vflag + " harness is not made of NO_STL objects: %s" % info["nm"],
                       {"config": name, "nm": info["nm"], "std_vector_symbols": vec[:10]}, no_input=True)
         return None
     return exe, name, info
@@ -539,10 +572,13 @@ def shrink_xof(driver, harness, ref_harness, model_line, env=None):
     return " ".join(t)
 
 
-def run_config(res, driver, harness, cfgname, cpx, meta, xof, utl, versions, stats, env=None, ref=None, ref_harness=None, info=None):
-    """ref: the result lines of the default (STL) harness for the same streams; given for the ASCON_NO_STL harness, whose lines must be identical"""
+def run_config(res, driver, harness, cfgname, cpx, meta, xof, utl, versions, stats, env=None, ref=None, ref_harness=None, info=None, variant="nostl"):
+    """ref: the result lines of the default (STL) harness for the same streams; given for the ASCON_NO_STL harness (variant "nostl") and for
+    the ARDUINO harness (variant "arduino"), whose lines must be identical"""
     t0 = time.time()
     nostl = ref is not None
+    vlong, vflag = RT_VARIANTS[variant]["long"], RT_VARIANTS[variant]["flag"]
+    skip_ok = variant == "nostl"          # the ARDUINO build has a String form for every STL-only operation: nothing may be skipped there
     nident = ndiff = 0
     skipped_nostl = {"xof_histories_with_AS": 0, "hash_histories_with_US": 0, "helper_cases": 0}
     # ---- CPX: model and implementation
@@ -564,7 +600,7 @@ def run_config(res, driver, harness, cfgname, cpx, meta, xof, utl, versions, sta
                 continue
             ndiff += 1
             k = first_diff_call(ref["cpx"][k_], io)
-            sig = "nostl-differs:%s:%s" % (cls, opkind(line, k))
+            sig = "%s-differs:%s:%s" % (variant, cls, opkind(line, k))
             if sig in seen:
                 continue
             seen.add(sig)
@@ -578,12 +614,12 @@ def run_config(res, driver, harness, cfgname, cpx, meta, xof, utl, versions, sta
             if not (a2 and b2 and a2[0] != b2[0]):
                 small, a2, b2, k = line, [io], [ref["cpx"][k_]], first_diff_call(ref["cpx"][k_], io)
             rc, m2, _ = common.run_lines(driver, [small], timeout=120)
-            res.violation(sig, "ascon::%s built with -DASCON_NO_STL (ascon::byte_array = the library's own class) behaves differently from the default "
-                          "build at call %d (%s) of: %s\n  default build:  %s\n  ASCON_NO_STL:   %s\n  model:          %s" %
-                          (cls, k, opkind(small, k), small[:400], b2[0][:600], a2[0][:600], (m2[0] if m2 else "")[:600]),
+            res.violation(sig, "ascon::%s %s behaves differently from the default "
+                          "build at call %d (%s) of: %s\n  default build:  %s\n  %s:   %s\n  model:          %s" %
+                          (cls, vlong, k, opkind(small, k), small[:400], b2[0][:600], vflag, a2[0][:600], (m2[0] if m2 else "")[:600]),
                           {"config": cfgname, "ops": [small], "impl": a2, "default": b2, "model": m2, "original_line": line,
-                           "how": "./check C17 --replay <this file>  (rebuilds the ASCON_NO_STL harness and the default harness from the working tree and "
-                                  "feeds `ops` to both and to build/ocaml/driver)"})
+                           "how": "./check C17 --replay <this file>  (rebuilds the %s harness and the default harness from the working tree and "
+                                  "feeds `ops` to both and to build/ocaml/driver)" % vflag})
             continue
         # (a) the real classes against the direct C calls under the documented key / nonce
         md = re.search(r"doc=(DEV@(\d+):(\w+))", io)
@@ -649,7 +685,7 @@ def run_config(res, driver, harness, cfgname, cpx, meta, xof, utl, versions, sta
         if "SKIPPED-NONCOMPILING" in o:
             nskipped += 1
         if nostl:
-            if " SKIPPED-NOSTL" in o:       # std::string overload (AS / US): absorbed through the pointer overload instead, counted
+            if " SKIPPED-NOSTL" in o and skip_ok:       # std::string overload (AS / US): absorbed through the pointer overload instead, counted
                 skipped_nostl["xof_histories_with_AS" if l.startswith("XOFX") else "hash_histories_with_US"] += 1
                 o = o.replace(" SKIPPED-NOSTL", "")
             if o == ref["xof"][k_]:
@@ -663,7 +699,7 @@ def run_config(res, driver, harness, cfgname, cpx, meta, xof, utl, versions, sta
             for tok in small.split()[(4 if t[0] == "XOFX" else 2):]:
                 if tok.split(":")[0] not in kinds:
                     kinds.append(tok.split(":")[0])
-            sig = "nostl-differs:%s:%s" % (cls, "+".join(kinds[:4]) or "ctor")
+            sig = "%s-differs:%s:%s" % (variant, cls, "+".join(kinds[:4]) or "ctor")
             if sig in seen:
                 continue
             seen.add(sig)
@@ -671,8 +707,8 @@ def run_config(res, driver, harness, cfgname, cpx, meta, xof, utl, versions, sta
             hl2 = "%s | %s" % (small.replace("XOFC", "XOFX", 1).replace("HSHC", "HSHX", 1), calls2[0] if calls2 else "")
             rc, a2, _ = common.run_lines(harness, [hl2], env=env, timeout=120)
             rc, b2, _ = common.run_lines(ref_harness, [hl2], timeout=120)
-            res.violation(sig, "ascon::%s built with -DASCON_NO_STL gives a different result from the default build (and from the C call sequence) for: %s\n"
-                          "  default build:  %s\n  ASCON_NO_STL:   %s" % (cls, hl2[:400], (b2[0] if b2 else "")[:300], (a2[0] if a2 else "")[:300]),
+            res.violation(sig, "ascon::%s %s gives a different result from the default build (and from the C call sequence) for: %s\n"
+                          "  default build:  %s\n  %s:   %s" % (cls, vlong, hl2[:400], (b2[0] if b2 else "")[:300], vflag, (a2[0] if a2 else "")[:300]),
                           {"config": cfgname, "ops": [hl2], "impl": a2, "default": b2, "original_line": l,
                            "how": "./check C17 --replay <this file>"})
             continue
@@ -696,7 +732,7 @@ def run_config(res, driver, harness, cfgname, cpx, meta, xof, utl, versions, sta
     rc_i, ui, _ = common.run_parallel(harness, utl, env=env)
     for k_, (l, mo, io) in enumerate(zip(utl, um, ui)):
         if nostl:
-            if io == "SKIPPED-NOSTL":        # bytes_to_hex / bytes_from_hex(std::string): not declared without the STL
+            if io == "SKIPPED-NOSTL" and skip_ok:        # bytes_to_hex / bytes_from_hex(std::string): not declared without the STL
                 skipped_nostl["helper_cases"] += 1
                 continue
             if io == ref["utl"][k_] and io == mo:
@@ -704,9 +740,9 @@ def run_config(res, driver, harness, cfgname, cpx, meta, xof, utl, versions, sta
                 continue
             ndiff += 1
             t = l.split()
-            res.violation("nostl-differs:utility:%s" % "-".join([t[1]] + t[3:4]),
-                          "utility.h helper built with -DASCON_NO_STL differs from the default build / the model: %s\n  default build:  %s\n  ASCON_NO_STL:   %s\n"
-                          "  model:          %s" % (l[:200], ref["utl"][k_][:300], io[:300], mo[:300]),
+            res.violation("%s-differs:utility:%s" % (variant, "-".join([t[1]] + (t[-1:] if t[1] != "FROMDATA" else []))),
+                          "utility.h helper %s differs from the default build / the model: %s\n  default build:  %s\n  %s:   %s\n"
+                          "  model:          %s" % (vlong, l[:200], ref["utl"][k_][:300], vflag, io[:300], mo[:300]),
                           {"config": cfgname, "ops": [l], "impl": [io], "default": [ref["utl"][k_]], "model": [mo], "how": "./check C17 --replay <this file>"})
             continue
         if " C=ok" not in io or mo != io:
@@ -724,9 +760,32 @@ def run_config(res, driver, harness, cfgname, cpx, meta, xof, utl, versions, sta
                     kk = "NB" if tok.startswith("N:") else tok.split(":")[0]
                     ntok[kk] = ntok.get(kk, 0) + 1
         ntok["UTL-FROMHEX-L/C,FROMDATA"] = len(utl) - skipped_nostl["helper_cases"]
-        stats[-1].update({"ascon_no_stl": True, "lines_compared_with_default_build": len(cpx) + len(hl) + len(utl) - skipped_nostl["helper_cases"],
+        if variant == "arduino":
+            # what ran through a String: AS / US always, TOHEX / TOHEXD (String result), FROMHEX S; AC / UC / FROMHEX C with a text on a coin toss
+            sf = {}
+            for l in [h for (m, h) in xof]:
+                for tok in l.split("|")[0].split()[2:]:
+                    f = tok.split(":")
+                    if f[0] in ("AS", "US") or (f[0] in ("AC", "UC") and f[1:2] != ["NULL"]):
+                        kk = {"AS": "absorb(const String &) [AS]", "US": "update(const String &) [US]",
+                              "AC": "absorb(String(text)) or absorb(const char *) by coin [AC]", "UC": "update(String(text)) or update(const char *) by coin [UC]"}[f[0]]
+                        sf[kk] = sf.get(kk, 0) + 1
+            for l in utl:
+                t = l.split()
+                if t[1] in ("TOHEX", "TOHEXD"):
+                    kk = "bytes_to_hex(%s) -> String" % ("pointer, length" if t[-1] == "P" else "byte_array")
+                elif t[1] == "FROMHEX" and t[3] == "S":
+                    kk = "bytes_from_hex(const String &) [FROMHEX S]"
+                elif t[1] == "FROMHEX" and t[3] == "C" and t[2] != "NULL":
+                    kk = "bytes_from_hex(String(text)) or (const char *) by coin [FROMHEX C]"
+                else:
+                    continue
+                sf[kk] = sf.get(kk, 0) + 1
+            stats[-1]["arduino"] = True
+            stats[-1]["string_form_calls_executed"] = sf
+        stats[-1].update({("ascon_no_stl" if variant == "nostl" else "ascon_no_stl_through_ARDUINO"): True, "lines_compared_with_default_build": len(cpx) + len(hl) + len(utl) - skipped_nostl["helper_cases"],
                           "lines_identical_to_default_build": nident, "lines_differing": ndiff,
-                          "skipped_stl_only": dict(skipped_nostl, note="AS/US: the data went through the pointer overload instead and the line was still compared; "
+                          "skipped_stl_only": {"none": "every STL-only operation has a String form in this build and was executed"} if variant == "arduino" else dict(skipped_nostl, note="AS/US: the data went through the pointer overload instead and the line was still compared; "
                                                                        "helper cases: TOHEX/TOHEXD (both forms) and FROMHEX S answer SKIPPED-NOSTL and are not compared"),
                           "byte_array_form_calls_over_own_class": ntok, "build": info})
     return combos, {"cpx": out_i, "xof": xo, "utl": ui}
@@ -754,11 +813,12 @@ def replay_run(res, driver, replay, scratch):
     if not got:
         return
     nostl = None
-    if str(rp.get("config", "")).endswith("-nostl"):
-        nostl = build_nostl(res, got)
+    rvar = "nostl" if str(rp.get("config", "")).endswith("-nostl") else "arduino" if str(rp.get("config", "")).endswith("-arduino") else None
+    if rvar:
+        nostl = build_nostl(res, got, variant=rvar, defs=(("-DC17_XOFA_STRING_OK",) if rvar == "arduino" else ()))
         if not nostl:
             return
-        print("ASCON_NO_STL harness rebuilt: %s" % nostl[2]["nm"])
+        print("%s harness rebuilt: %s" % (RT_VARIANTS[rvar]["flag"], nostl[2]["nm"]))
     for l in rp["ops"]:
         rc, io, err = common.run_lines(got[1], [l])
         print("op:    " + l)
@@ -773,11 +833,11 @@ def replay_run(res, driver, replay, scratch):
         if nostl:
             rc, no, err = common.run_lines(nostl[0], [l])
             n0 = (no[0] if no else "<none> " + err[-300:])
-            print("nostl: " + n0)
-            n1 = n0.replace(" SKIPPED-NOSTL", "")
-            if n1 != "SKIPPED-NOSTL" and (n1 != o or (mo and n1 != mo[0])):
-                res.violation("replay-nostl", "the replayed case still differs between the ASCON_NO_STL build and the default build / the model: %s\n"
-                              "  default build:  %s\n  ASCON_NO_STL:   %s" % (l[:300], o[:600], n0[:600]),
+            print("%s: %s" % (rvar, n0))
+            n1 = n0.replace(" SKIPPED-NOSTL", "") if rvar == "nostl" else n0
+            if (n1 != "SKIPPED-NOSTL" or rvar != "nostl") and (n1 != o or (mo and n1 != mo[0])):
+                res.violation("replay-" + rvar, "the replayed case still differs between the " + RT_VARIANTS[rvar]["flag"] + " build and the default build / the model: %s\n"
+                              "  default build:  %s\n  this build:     %s" % (l[:300], o[:600], n0[:600]),
                               {"config": nostl[1], "ops": [l], "impl": no, "default": io, "model": mo})
 
 
@@ -803,9 +863,11 @@ def run(res, tier, seed, replay=None):
         b = stdflow.Builds(res, sc)
         defs = ("-DC17_XOFA_STRING_OK",) if xofa_ok else ()
         ndefs = ("-DC17_XOFA_STRING_OK",) if xofa["nostl"] else ()
-        # (configuration, sanitizers, ASCON_NO_STL harness)
-        plan = [("default", False, False), ("default", False, True)] if tier == "quick" else \
-               [("default", False, False), ("default", False, True), ("c32", False, False), ("generic", False, False), ("default", True, False), ("default", True, True)]
+        adefs = ("-DC17_XOFA_STRING_OK",) if xofa["arduino"] else ()
+        # (configuration, sanitizers, run-time variant of the headers: None = STL, "nostl" = -DASCON_NO_STL, "arduino" = -DARDUINO against the stub)
+        plan = [("default", False, None), ("default", False, "nostl"), ("default", False, "arduino")] if tier == "quick" else \
+               [("default", False, None), ("default", False, "nostl"), ("default", False, "arduino"), ("c32", False, None), ("generic", False, None),
+                ("default", True, None), ("default", True, "nostl"), ("default", True, "arduino")]
         stats, combos = [], set()
         ref = ref_harness = None
         for cfg, san, nostl in plan:
@@ -822,13 +884,13 @@ def run(res, tier, seed, replay=None):
                     ref, ref_harness = outs, got[1]
                 continue
             if ref is None:
-                res.notes.append("ASCON_NO_STL run-time replay skipped: no default-build reference run")
+                res.notes.append("%s run-time replay skipped: no default-build reference run" % RT_VARIANTS[nostl]["flag"])
                 continue
-            n = build_nostl(res, got, san=san, defs=ndefs)
+            n = build_nostl(res, got, san=san, defs=(ndefs if nostl == "nostl" else adefs), variant=nostl)
             if not n:
                 continue
             stage["build:" + n[1]] = round(time.time() - tb, 1)
-            run_config(res, driver, n[0], n[1], cpx, meta, xof, utl, versions, stats, env=env, ref=ref, ref_harness=ref_harness, info=n[2])
+            run_config(res, driver, n[0], n[1], cpx, meta, xof, utl, versions, stats, env=env, ref=ref, ref_harness=ref_harness, info=n[2], variant=nostl)
     hist = {}
     for l in cpx:
         for tok in l.split()[2:]:
@@ -870,7 +932,14 @@ def run(res, tier, seed, replay=None):
                                                        "every line must equal the default-build line and the model line; STL-only operations (AS, US, TOHEX*, FROMHEX S) "
                                                        "are counted in per_config[].skipped_stl_only; empty input arrays alternate between the array without a buffer "
                                                        "and the zero-sized array with one, and in half of the encrypt/decrypt calls the output array shares its buffer "
-                                                       "with a copy taken before the call, which must keep its contents"},
+                                                       "with a copy taken before the call, which must keep its contents",
+                               "arduino-runtime-replay": "the same streams fed to a third harness built with -DARDUINO=10819 against the stub String: AS / US run "
+                                                         "through absorb / update (const String &) (Strings built character by character, NULs inside included), "
+                                                         "TOHEX / TOHEXD through the bytes_to_hex forms returning String, FROMHEX S through bytes_from_hex(const String &), "
+                                                         "AC / UC / FROMHEX C with a text through a String built from the text or the const char * form (coin per call); "
+                                                         "gen_xof adds directed histories (strings of 0, 1, 7, 8, 9, 40 characters, with a NUL inside, a lone NUL) for "
+                                                         "xof/xofa<0>, <32>, hash, hasha on every run; every line must equal the default-build line; counts in "
+                                                         "per_config[].string_form_calls_executed"},
         "oracles": {"plain+masked classes": "extracted Coq model of the C function (x_aead_encrypt/x_aead_decrypt) inside the extracted object model, "
                                             "AND the in-harness direct C call under the documented key/nonce",
                     "siv+isap classes": "in-harness direct C call (documented key/nonce, and held key/nonce); the extracted object model predicts "
@@ -889,8 +958,10 @@ def run(res, tier, seed, replay=None):
         "the ASCON_NO_STL variant of the headers is compiled member by member (second pass) and run: src/cplusplus/*.cpp are compiled here with "
         "-DASCON_NO_STL (g++ -std=c++11) and linked with the C objects of the default CMake build; the run-time comparison covers the default backend "
         "and share configuration only; the semantics of the library's own byte_array class beyond what these calls exercise is C20's subject",
-        "the ARDUINO variant is only compiled (third pass), on the host, against a minimal STUB of <Arduino.h>/<WString.h> (harness/arduino_stub: a String "
-        "class with the real signatures of c_str()/length()); it is not built with the Arduino core, not cross-compiled and not run",
+        "the ARDUINO variant is compiled (third pass) and run (configuration default-arduino: src/cplusplus/*.cpp and the harness compiled with "
+        "-DARDUINO=10819, the String overloads executed, every line equal to the default build's), on the host, against a STUB of <Arduino.h>/<WString.h> "
+        "(harness/arduino_stub: a functional String class with the real signatures of the members used); it is not built with the Arduino core and not "
+        "cross-compiled; default backend and share configuration only",
         "all lengths < 2^31",
     ]
     res.cov["wall_total"] = round(time.time() - t0, 1)
